@@ -75,6 +75,7 @@ fn hostile_det_spec(rng: &mut Prng) -> Spec {
             _ => Op::Fill(rng.range(0, 40) as u32),
         })
         .collect();
+    maybe_long_haul(rng, &mut spec.ops, 60);
     spec
 }
 
@@ -183,6 +184,9 @@ fn run_hostile_det(spec: &Spec, st: &mut Stats) -> Result<(), E> {
                 super::c05::log_out(st, &o);
             }
             Op::Fill(n) => {
+                if *n >= 4 * 65_536 {
+                    st.count("probe:long_haul");
+                }
                 let o = sut(super::c05::do_call(g.as_mut(), Call::Fill(*n as usize)), "fill_bytes")?;
                 super::c05::log_out(st, &o);
             }
@@ -371,6 +375,7 @@ impl Scenario for C14 {
             "fault:wrap_u64",
             "probe:via_C12",
             "probe:via_C13",
+            "probe:long_haul",
         ]
     }
 }
